@@ -124,6 +124,7 @@ def build(unit, repo=REPO, features=()):
     """-> (text, linemap, marks, registry)"""
     registry = []
     extract.FEATURES = set(features)
+    extract.LITERALS.clear()
     tpl = os.path.join(VERIF, "units", unit + ".rs")
     pieces = extract.expand(tpl, repo, VERIF, registry)
     text, linemap, marks = extract.assemble(pieces)
